@@ -883,8 +883,16 @@ def to_spec_cli(case, out):
     return "exit=0|" + to_spec_cgrfile("cgrfile %s" % stt.get("v", "1"), out[7:])
 
 def cheap_cli(case):
+    """cases for the in-Coq sample: vm_compute of a row of 8192 binary64 quotients (k = 7) takes minutes, k <= 5 seconds"""
     p = case.split(" ")
-    return len(case) < 500 and (p[0] != "cli" or p[1] in ("oligo", "min"))
+    if len(case) >= 500: return False
+    if p[0] == "ofile": return p[1].isdigit() and int(p[1]) <= 5
+    if p[0] != "cli": return True
+    if p[1] == "min": return True
+    if p[1] == "oligo":
+        k = dict(x.split("=", 1) for x in p[2].split(",") if "=" in x).get("k", "3")
+        return k.isdigit() and int(k) <= 5
+    return False
 
 def st(d):
     return ",".join("%s=%s" % kv for kv in d.items() if kv[1] is not None) or "_"
